@@ -180,6 +180,7 @@ Record registry_consts := {
   rc_entries_ok : bool;          (* every function defined in the three registry files is one of the modelled entry points, and no
                                     other source file touches the arrays: no unmodelled way from a name / id / CFG->output to a call *)
   rc_dispatch : dispatch_shape;
+  rc_callers : list (string * string);   (* (source file, registry function) for every use of the registries' API outside the three registry files *)
   rc_ds : registry;
   rc_flt : registry;
   rc_out : registry;
@@ -205,11 +206,23 @@ Definition guards_match (c : registry_consts) : bool :=
   && subsetb (rc_confighin c) (rc_configure_features c) && subsetb (rc_configure_features c) (rc_confighin c)
   && subsetb (filter (fun g => negb (is_feature_guard g)) used) (rc_configure_generic c).
 
+(** The only users of the registries: the format expansion, the filter chain, the `output` option parser and the message
+    dispatch, and only through the name-based API (ids never leave the registries).  In particular no data source / filter /
+    output implementation goes back into a registry (whose answer would depend on OTHER features' switches). *)
+Definition allowed_callers : list (string * string) :=
+  [ ("src/message.c", "snoopy_datasourceregistry_doesNameExist"); ("src/message.c", "snoopy_datasourceregistry_callByName");
+    ("src/filtering.c", "snoopy_filterregistry_doesNameExist"); ("src/filtering.c", "snoopy_filterregistry_callByName");
+    ("src/configfile.c", "snoopy_outputregistry_doesNameExist");
+    ("src/action/log-message-dispatch.c", "snoopy_outputregistry_dispatch") ].
+Definition pair_in (x : string * string) (l : list (string * string)) : bool :=
+  existsb (fun y => String.eqb (fst x) (fst y) && String.eqb (snd x) (snd y)) l.
+Definition callers_ok (c : registry_consts) : bool := forallb (fun x => pair_in x allowed_callers) (rc_callers c).
+
 Definition registry_consts_ok (c : registry_consts) : bool :=
   rc_lookup_ok c && rc_entries_ok c && match rc_dispatch c with DispatchCallByName => true | DispatchOther => false end
   && well_formed (rc_sentinel c) (rc_ds c) && well_formed (rc_sentinel c) (rc_flt c) && well_formed (rc_sentinel c) (rc_out c)
   && match r_kind (rc_ds c), r_kind (rc_flt c), r_kind (rc_out c) with Datasource, Filter, Output => true | _, _, _ => false end
-  && guards_match c.
+  && guards_match c && callers_ok c.
 
 (** snoopy_outputregistry_dispatch with CFG->output = configured *)
 Definition dispatch (c : registry_consts) (cfg : config) (configured : string) : outcome :=
